@@ -40,6 +40,7 @@ import os
 import shutil as _real_shutil
 import struct
 import sys
+import time
 import zlib
 
 from harness import checklib
@@ -547,10 +548,10 @@ def prim_len(p):
 
 def real_kill(jm, path, snap, pending_ci, op, k, t):
     """(B) really kill: pre-op files at `path`, fresh FileJournal, run `op` with kill plan (k, t).
-    Returns (files after the kill, killed?, primitives that completed)."""
+    Returns (files after the kill, killed?, primitives that completed, exception of the op | None)."""
     write_snapshot(path, snap)
     r = Real(jm, path)
-    killed = False
+    killed, exc = False, None
     try:
         if pending_ci is not None:
             r.j.setRaftCommitIndex(pending_ci)
@@ -558,10 +559,12 @@ def real_kill(jm, path, snap, pending_ci, op, k, t):
             r.apply(op, kill=(k, t))
         except Killed:
             killed = True
+        except Exception as e:          # noqa  the op itself fails (e.g. D8 on an unrepaired tree)
+            exc = e
         img = snapshot(path)            # copy first ...
     finally:
         r.abandon()                     # ... release the handles afterwards
-    return img, killed, list(r.rec.log)
+    return img, killed, list(r.rec.log), exc
 
 
 def open_image(jm, path, img):
@@ -588,7 +591,14 @@ class Model(object):
     replies can be long hex lines)"""
 
     def __init__(self, jm):
-        self.d = checklib.DriverProc("journal")
+        for attempt in range(40):                   # the binary vanishes for a moment while lake relinks it
+            try:
+                self.d = checklib.DriverProc("journal")
+                break
+            except (checklib.DriverError, OSError):
+                if attempt == 39:
+                    raise
+                time.sleep(0.5)
         self.out = io.BufferedReader(self.d.p.stdout, 1 << 20)
         self.ver = version_hex(jm)
 
@@ -681,7 +691,8 @@ def crash_monitor(op, old, res, ci, allowed_ci):
     k = op[0]
     if ci not in allowed_ci:
         return ("journal.meta:commit-index-never-set",
-                "commit index %r after reopen was never passed to setRaftCommitIndex (set: %s)" % (ci, sorted(allowed_ci)))
+                "commit index %r after reopen is not among the admissible ones %s (values passed to setRaftCommitIndex; "
+                "the default 1 only while no .meta had been stored)" % (ci, sorted(allowed_ci)))
     n = len(old)
     if k == "add":
         e = (to_bytes(cmd_of(op[3])), op[1], op[2])
@@ -829,6 +840,17 @@ class RandomSource(object):
 
 
 
+class ChainSource(object):
+    """a fixed (abstract) prefix, then another source"""
+
+    def __init__(self, aops, then):
+        self.first, self.then = ListSource(aops), then
+
+    def next(self, view):
+        op = self.first.next(view)
+        return op if op is not None else self.then.next(view)
+
+
 class ListSource(object):
     def __init__(self, aops):
         self.aops = list(aops)
@@ -912,7 +934,11 @@ def run_case(jm, model, path, source, factory="FileJournal", cov=None, rng=None,
                 disagree("entry list after op #%d" % len(ops), me, ie)
 
     try:
-        real = Real(jm, path, factory)
+        try:
+            real = Real(jm, path, factory)
+        except Exception as e:                           # noqa
+            violate("open", "exception:" + type(e).__name__, "creating a fresh journal raised %r" % (e,))
+            return res
         if model is not None:
             reply = model.new()
             # creation itself (write the 40-byte header file, resize to 1024) is not a modelled
